@@ -536,6 +536,33 @@ def check(ctx):
            "back into positions / quaternions / timestamps" if okr else
            f"df_to_trajectory rebuilds {fmt(rf.ret)}",
            key="C06.5:pandas:from_df")
+    # whether the frame comes back *with* timestamps is decided by the kind
+    # of its index (the integer pose counter trajectory_to_df writes for a
+    # path) or by the requested type — never by the index values: 0, 1, 2 ...
+    # are valid timestamps and must come back as timestamps
+    dfi = tm.attr(df, "index")
+    path_rets = [(v, l) for v, l in rf.returns
+                 if v.op == "call" and len(v.args[1]) == 2 and not v.args[2]]
+    for v, l in path_rets:
+        ats = [a for a in tm.atoms(l) if any(x is dfi for x in a.walk())]
+        by_value = [a for a in ats if not any(
+            x.op == "attr" and x.args[1] in ("dtype", "inferred_type") and
+            x.args[0] is dfi for x in a.walk()) and not any(
+            is_call_to(x, "pandas.api.types.is_integer_dtype",
+                       "numpy.issubdtype") for x in a.walk())]
+        by_kind = [a for a in ats if a not in by_value]
+        if by_value:
+            ctx.ob("C06.5", rf.func, False,
+                   f"df_to_trajectory drops the timestamps when "
+                   f"{fmt(by_value[0])[:90]}: the decision looks at the "
+                   f"index *values*, so a trajectory whose stamps are 0, 1, "
+                   f"2, ... (or a single pose at 0.0) comes back as a path "
+                   f"without timestamps", key="C06.5:pandas:path-by-kind")
+        elif by_kind or not ats:
+            ctx.ob("C06.5", rf.func, True,
+                   "df_to_trajectory returns a path (no timestamps) only by "
+                   "the requested type / the integer kind of the index",
+                   key="C06.5:pandas:path-by-kind")
     ctx.section(_bag, ctx, prog)
     ctx.section(_bag_callers, ctx, prog)
 
